@@ -3,13 +3,14 @@ CONSTANTS
   MaxRows = 1
   MaxW = 1
   SelMenu = {1, 2, 3, 4, 5}
-  WireMode = "abc"
+  WireMode = "ab"
   InitMode = "initialized"
   SortPI = TRUE
 INVARIANTS
   RoundTripKeys
   CompressDeterministic
   DictsBijective
+  SigmaIsNextInClass
   CapacityAgrees
   RejectsMalformed
   AcceptsSparse
